@@ -249,8 +249,26 @@ pub fn rnd_of_blinds(b: &Blinds) -> Vec<String> {
 }
 pub fn is_marked(o: &OutSpec) -> bool { !o.script.is_empty() && matches!(o.nonce, NonceSpec::Key(_)) }
 
-/// the hypotheses of C04, evaluated on the spec itself
-pub fn c04_hypotheses(spec: &TxSpec) -> bool {
+/// `SECP256K1_SURJECTIONPROOF_MAX_N_INPUTS` of libsecp256k1-zkp (include/secp256k1_surjectionproof.h): the largest domain a
+/// surjection proof can have. Written down HERE, independently of the crate's own constant: C04 promises success up to this
+/// size and `Upstream(CannotProveSurjection)` beyond it.
+pub const SURJECTION_DOMAIN_MAX: usize = 256;
+/// the size of the surjection domain `Transaction::blind` is given: the spent outputs and one pseudo-input per issuance amount
+/// and per inflation-keys amount (the length of the `secrets` vector `build` returns)
+pub fn surjection_domain_len(spec: &TxSpec) -> usize {
+    spec.ins.iter().map(|s| 1 + s.iss.as_ref().map(|x| x.amount.is_some() as usize + x.keys.is_some() as usize).unwrap_or(0)).sum()
+}
+/// the hypotheses of C04, evaluated on the spec itself: the surjection domain is within the limit, and all the others
+pub fn c04_hypotheses(spec: &TxSpec) -> bool { surjection_domain_len(spec) <= SURJECTION_DOMAIN_MAX && c04_hypotheses_but_domain(spec) }
+/// the hypotheses of the refusal clause (C04_domain_limit_blind): every output positive, the marked ones within the rangeproof
+/// limit and on address scripts, at least one marked — balance and the spent side do not matter
+pub fn c04_refusal_hypotheses(spec: &TxSpec) -> bool {
+    spec.outs.iter().all(|o| o.value != 0 && (!is_marked(o) || (o.value <= i64::MAX as u64
+        && Address::from_script(&Script::from(o.script.clone()), None, &AddressParams::ELEMENTS).is_some())))
+        && spec.outs.iter().any(is_marked)
+}
+/// the hypotheses of C04 other than the size of the surjection domain
+pub fn c04_hypotheses_but_domain(spec: &TxSpec) -> bool {
     let mut bal: BTreeMap<AssetId, i128> = BTreeMap::new();
     for (i, s) in spec.ins.iter().enumerate() {
         if s.sec.value == 0 { return false; }
@@ -302,6 +320,21 @@ fn finish_blind(case: &str, spec: &TxSpec, r: BlindRes) -> Out {
     let spec = spec.clone();
     let hyp = c04_hypotheses(&spec);
     let nmarked = spec.outs.iter().filter(|o| is_marked(o)).count();
+    // the size limit of the surjection domain: beyond it (with a marked output that is reached: positive amounts, address
+    // scripts) the call must be refused with Upstream(CannotProveSurjection) and nothing else; AT the limit a transaction that
+    // satisfies the other hypotheses must not be refused
+    let dom = surjection_domain_len(&spec);
+    let refused = matches!(&r, BlindRes::Err(BlindError::ConfidentialTxOutError(ConfidentialTxOutError::Upstream(elements::secp256k1_zkp::Error::CannotProveSurjection))));
+    let domain_fail = if dom > SURJECTION_DOMAIN_MAX && c04_refusal_hypotheses(&spec) && !refused {
+        let what = match &r { BlindRes::Panic => "panicked".to_string(), BlindRes::Err(e) => format!("returned {:?}", e), BlindRes::Ok(_) => "succeeded".to_string() };
+        Some(format!("domain-limit|Transaction::blind {} on a surjection domain of {} entries (more than {}) instead of returning Upstream(CannotProveSurjection)", what, dom, SURJECTION_DOMAIN_MAX))
+    } else if dom == SURJECTION_DOMAIN_MAX && hyp && refused {
+        Some(format!("domain-limit|Transaction::blind refused a valid balanced explicit transaction whose surjection domain has exactly {} entries (the limit itself is admitted)", dom))
+    } else { None };
+    let out = finish_blind_inner(case, &spec, hyp, nmarked, r);
+    match domain_fail { Some(f) => Out { result: out.result, pred_fail: Some(f) }, None => out }
+}
+fn finish_blind_inner(case: &str, spec: &TxSpec, hyp: bool, nmarked: usize, r: BlindRes) -> Out {
     match r {
         BlindRes::Panic => {
             let pred_fail = if nmarked == 0 {
